@@ -743,7 +743,9 @@ func (s *vfSim) run() {
 				s.post(en, p, false, "update")
 				if iv == 0 || iv > en.k.interval {
 					s.bad("C02:flush-interval", "flush returned next interval %d (interval %d)", iv, en.k.interval)
-					iv = en.k.interval
+				}
+				if iv == 0 {
+					iv = en.k.interval // the session would spin; every other value is used as it is, as UDPSession.update does
 				}
 				s.schedUpdate(en, s.now+iv)
 			} else {
